@@ -105,3 +105,18 @@ package mapping
 //@ func (u *Unmarshaler) processFieldNotFromString
 //@   property C08
 //@   call processFieldStruct#0: assert typeIs(arg_m, *simpleValuer)
+
+// only a field that asked for it (inherit option) reads missing keys from the enclosing objects; a field without options
+// or without that option gets the plain valuer - this is what keeps the decoder in agreement with encoding/json on plain
+// tagged structs (C17) and keeps required nested fields required (C08)
+//@ func (o *fieldOptionsWithContext) inherit
+//@   property C08 C17
+//@   ensures result == (o != nil && o.Inherit)
+//@   modifies nothing
+//@ extern func (v valuerWithParent) Parent
+//@   modifies nothing
+//@ func createValuer
+//@   property C08 C17
+//@   requires v != nil
+//@   ensures implies(opts == nil || !opts.Inherit, typeIs(result, simpleValuer))
+//@   ensures implies(opts != nil && opts.Inherit, typeIs(result, recursiveValuer))
